@@ -6,6 +6,7 @@ from simaple.simulate.component.trait.impl import (
     InvalidatableCooldownTrait,
     UseSimpleAttackTrait,
 )
+from simaple.simulate.component.util import is_rejected
 from simaple.simulate.global_property import Dynamics
 
 
@@ -38,8 +39,10 @@ class DOTEmittingAttackSkillComponent(
     @reducer_method
     def use(self, _: None, state: DOTEmittingState):
         state, event = self.use_simple_attack(state)
-        event += [self.get_dot_add_event()]
-        return state, event
+        if is_rejected(event):
+            return state, event
+
+        return state, event + [self.get_dot_add_event()]
 
     @reducer_method
     def reset_cooldown(self, _: None, state: DOTEmittingState):
